@@ -124,16 +124,14 @@ func (t *KernMethod) TransferGovernTokens(ctx contract.KContext) (*contract.Resp
 
 	// 设置receiver余额
 	receiverBalance := utils.NewGovernTokenBalance()
-	receiverBalance.TotalBalance.Set(amount)
 
-	// 查询receiver余额并更新
+	// 查询receiver余额并更新, 保留receiver已有的锁定余额
 	receiverKey := utils.MakeAccountBalanceKey(string(receiverBuf))
 	receiverBalanceBuf, err := ctx.Get(utils.GetGovernTokenBucket(), []byte(receiverKey))
 	if err == nil {
-		receiverBalanceOld := &utils.GovernTokenBalance{}
-		json.Unmarshal(receiverBalanceBuf, receiverBalanceOld)
-		receiverBalance.TotalBalance.Add(receiverBalance.TotalBalance, receiverBalanceOld.TotalBalance)
+		json.Unmarshal(receiverBalanceBuf, receiverBalance)
 	}
+	receiverBalance.TotalBalance.Add(receiverBalance.TotalBalance, amount)
 
 	// 更新sender余额
 	senderBalanceBuf, _ := json.Marshal(senderBalance)
